@@ -452,6 +452,10 @@ Definition partial_fit_op (n : node) (x' : data) (y' : ycheck) : res node + unit
           else
             let f := snd (hd (0, 0) xs) in
             let m := snd (hd (0, 0) ys) in
+            (* _init_with_sequences (since 7fd0837): an uninitialised node takes its dimensions from the FIRST sequence; the
+               others must agree with it, and a disagreement is a ValueError raised before initialize() and before any sum *)
+            let ragged := negb (forallb (fun p => snd p =? f) xs && (unsup || forallb (fun p => snd p =? m) ys)) in
+            if negb (initialized n) && ragged then inl (RErr ValueError) else
             match (if initialized n then ROk n else initialize n [f] (if unsup then None else Some m)) with
             | RErr e => inl (RErr e)
             | ROk n1 =>
